@@ -340,3 +340,81 @@ def encode_fold_rule(an: Analysis, rep, rule="R07.V"):
         rep.add(rule, f"{enc.qual}::witness data: {name.split(',')[0]}", why is None, loc(m, enc.node),
                 f"{name}: written as the format describes" if why is None else
                 f"for the witness data ({name}) the encoder writes {why} - not the document of the format (which from_json_data, the schema and other hosts expect)")
+
+
+_N = float("nan")
+WITNESS_VALUES = {
+    "huge positive int": 9007199254740992, "huge negative int": -9007199254740992, "very long int": 10 ** 40,
+    "+inf": float("inf"), "-inf": float("-inf"), "nan": _N,
+    "string with a lone surrogate": "\ud800 doc", "string with quotes and a surrogate": "\udc80\"'x",
+    "empty bytes": b"", "bytes": b"\x00\xff", "ellipsis": Ellipsis,
+    "complex": complex(1.5, -0.0), "complex with nan / inf": complex(_N, float("-inf")),
+    "frozenset": frozenset({1, "a", b"\x00"}), "empty frozenset": frozenset(),
+    "tuple": (1, (2.5, None), -99999999999999999999), "empty tuple": (),
+    "bool": True, "none": None, "small int": -7, "float": -0.0, "plain string": "x",
+}
+
+
+def constants_fold_rule(an: Analysis, rep, rule="R07.C"):
+    """Both directions of the constant codec folded over every witness of json_model.CONSTANT_WITNESSES (each tagged form, alone, inside a tuple, inside a frozenset):
+    decoding the witness document gives the witness value, encoding the value gives the document (frozenset members in any order)."""
+    from .json_model import CONSTANT_WITNESSES
+    rep.rule(rule, "the constant codec folded over every witness constant, both directions", 2)
+    enc, cdec = find_json_functions(an)
+    values = {}
+    for name, doc in CONSTANT_WITNESSES:
+        if name in WITNESS_VALUES:
+            values[name] = WITNESS_VALUES[name]
+    for name, doc in CONSTANT_WITNESSES:
+        for pre, build in (("tuple holding ", lambda v: (v, (v,))), ("frozenset holding ", lambda v: frozenset({v, (v,)}))):
+            if name.startswith(pre):
+                base = name[len(pre):].split(" / ")[0]
+                if base in WITNESS_VALUES:
+                    values[name] = build(WITNESS_VALUES[base])
+
+    def resolver(fn):
+        def resolve(nm):
+            r = an.prog.resolve_global(fn.module, nm, fn)
+            if r and r[0] == "func":
+                return r[1].node
+            for g in an.prog.all_functions():
+                if g.cls is None and g.parent is None and g.name == nm and g.module.name.startswith("code_data") and not g.module.is_test:
+                    return g.node
+            return None
+        return resolve
+    dcs = data_classes(an)
+    MISSING = object()
+    extra_d = {**stdlib_names(cdec.module), "literal_eval": ast.literal_eval, "copy": lambda x: dict(x) if isinstance(x, dict) else list(x)}
+    extra_e = {**stdlib_names(enc.module), "is_dataclass": lambda o: False, "fields": lambda o: [], "MISSING": MISSING, "ascii": ascii, "repr": repr}
+    bad_d, bad_e = [], []
+    n = 0
+    for name, doc in CONSTANT_WITNESSES:
+        if name not in values:
+            continue
+        n += 1
+        want = values[name]
+        import copy as _copy
+        for direction in ("decode", "encode"):
+            fn = cdec if direction == "decode" else enc
+            ev = ObjEval(resolver(fn), extra=extra_d if direction == "decode" else extra_e)
+            ev.module_assigns = fn.module.assigns
+            ev.MAX_ITER = 256
+            try:
+                if direction == "decode":
+                    got = ev.call_method(fn.node, _copy.deepcopy(doc))
+                    why = _same(got, want, {}, "value")
+                else:
+                    got = ev.call_method(fn.node, want)
+                    why = _doc_same(got, doc)
+            except BlockOutcome as o:
+                why = f"stops at `{norm_src(o.node)[:60]}`"
+            except (SyntaxError, ValueError, ArithmeticError, __import__("re").error) as ex:
+                why = f"raises {type(ex).__name__}: {str(ex)[:50]}"
+            except Exception as ex:  # noqa: BLE001
+                raise AnalysisError(f"{fn.qual}: not evaluable on the witness constant '{name}' ({type(ex).__name__}: {ex})")
+            if why:
+                (bad_d if direction == "decode" else bad_e).append(f"{name} ({ascii(doc)[:50]}): {why}")
+    rep.add(rule, f"{cdec.qual}::every witness document decodes to its constant", not bad_d, loc(cdec.module, cdec.node),
+            f"{n} witness constants (every tagged form, alone and nested in tuples / frozensets)" if not bad_d else f"{bad_d[0]}" + (f" (+{len(bad_d) - 1} more)" if len(bad_d) > 1 else ""))
+    rep.add(rule, f"{enc.qual}::every witness constant is written as its document", not bad_e, loc(enc.module, enc.node),
+            f"{n} witness constants" if not bad_e else f"{bad_e[0]}" + (f" (+{len(bad_e) - 1} more)" if len(bad_e) > 1 else ""))
